@@ -65,6 +65,8 @@ func (y *verifYieldStore) SnapInfo(ctx context.Context, spec store.SnapSpec, use
 type verifReq struct {
 	id        int
 	snapName  string
+	snaps     []string // every snap the request names
+	affected  []string // snaps the accepted change operates on
 	kind      string
 	done      chan struct{}
 	finished  bool
@@ -74,10 +76,14 @@ type verifReq struct {
 	chgID     string
 	startJSON string // SnapState when the request entered snapstate
 	endJSON   string // ... and when it returned
+	startRec  map[string]string
+	endRec    map[string]string
 	tasks0    int    // task/change counts when the request last resumed (or started)
 	chgs0     int
 	tasks1    int
 	chgs1     int
+	linked0   int // tasks linked to a change
+	linked1   int
 	exclusive bool // an exclusive change was unfinished when it returned
 	others    []string
 }
@@ -91,12 +97,33 @@ func verifSnapStateJSON(st *state.State, name string) string {
 	return string(b)
 }
 
+func verifSnapStatesJSON(st *state.State, names []string) string {
+	out := ""
+	for _, n := range names {
+		out += n + "=" + verifSnapStateJSON(st, n) + ";"
+	}
+	return out
+}
+
+func verifIntersects(a, b []string) bool {
+	for _, x := range a {
+		for _, y := range b {
+			if x == y {
+				return true
+			}
+		}
+	}
+	return false
+}
+
 func verifBodyC14(s *verifEngC, gc *check.C) {
 	c := s.ctx
 	st := s.state
 	s.wrapHandlers()
 	names := []string{"some-snap", "some-other-snap"}
 	ids := map[string]string{"some-snap": "some-snap-id", "some-other-snap": "some-other-snap-id"}
+	// requests may also name a snap that is not installed at the start
+	reqNames := []string{"some-snap", "some-other-snap", "some-new-snap"}
 	nextRev := map[string]int{}
 
 	st.Lock()
@@ -117,36 +144,60 @@ func verifBodyC14(s *verifEngC, gc *check.C) {
 
 	var reqs []*verifReq
 	var exclusive *state.Change
-	exclusiveKinds := []string{"remodel", "create-recovery-system", "remove-recovery-system"}
+	exclusiveKinds := []string{"remodel", "create-recovery-system", "remove-recovery-system", "transition-ubuntu-core", "transition-to-snapd-snap"}
 	nreq := 3 + c.Draw("nrequests", 8)
 	issued := 0
 
 	startRequest := func() {
-		n := names[c.Draw("req-snap", len(names))]
-		r := &verifReq{id: issued, snapName: n, done: make(chan struct{})}
-		issued++
-		kinds := []string{"refresh", "revert", "remove", "disable", "enable", "switch", "refresh"}
-		r.kind = kinds[c.Draw("req-kind", len(kinds))]
-		rev := nextRev[n]
-		if r.kind == "refresh" {
-			nextRev[n]++
+		kinds := []string{"refresh", "revert", "remove", "disable", "enable", "switch", "refresh",
+			"install", "alias", "unalias", "prefer", "revert-to", "refresh-many", "remove-many"}
+		kind := kinds[c.Draw("req-kind", len(kinds))]
+		var n string
+		if kind == "install" {
+			n = reqNames[c.Draw("req-snap-install", len(reqNames))]
+		} else {
+			n = names[c.Draw("req-snap", len(names))]
 		}
+		r := &verifReq{id: issued, snapName: n, snaps: []string{n}, kind: kind, done: make(chan struct{})}
+		issued++
+		if kind == "refresh-many" || kind == "remove-many" {
+			r.snaps = append([]string(nil), names...)
+			if c.Draw("many-subset", 3) == 1 {
+				r.snaps = []string{n}
+			}
+		}
+		revs := map[string]int{}
+		if r.kind == "refresh" || r.kind == "refresh-many" {
+			for _, x := range r.snaps {
+				revs[x] = nextRev[x]
+				nextRev[x]++
+			}
+		}
+		revertTo := 1 + c.Draw("revert-to-rev", 3)
 		reqs = append(reqs, r)
-		c.Logf("client request #%d: %s %s", r.id, r.kind, n)
+		c.Logf("client request #%d: %s %v", r.id, r.kind, r.snaps)
 		go func() {
 			defer close(r.done)
 			st.Lock()
 			defer st.Unlock()
-			r.startJSON = verifSnapStateJSON(st, n)
-			r.tasks0, r.chgs0 = st.TaskCount(), len(st.Changes())
+			r.startJSON = verifSnapStatesJSON(st, r.snaps)
+			r.startRec = map[string]string{}
+			for _, x := range r.snaps {
+				r.startRec[x] = verifSnapStateJSON(st, x)
+			}
+			r.tasks0, r.chgs0, r.linked0 = st.TaskCount(), len(st.Changes()), len(st.Tasks())
 			var ts *state.TaskSet
+			var tss []*state.TaskSet
 			var err error
+			r.affected = r.snaps
 			switch r.kind {
 			case "refresh":
-				s.fakeStore.refreshRevnos[ids[n]] = snap.R(rev)
+				s.fakeStore.refreshRevnos[ids[n]] = snap.R(revs[n])
 				ts, err = snapstate.Update(st, n, nil, s.user.ID, snapstate.Flags{})
 			case "revert":
 				ts, err = snapstate.Revert(st, n, snapstate.Flags{}, "")
+			case "revert-to":
+				ts, err = snapstate.RevertToRevision(st, n, snap.R(revertTo), snapstate.Flags{}, "")
 			case "remove":
 				ts, err = snapstate.Remove(st, n, snap.R(0), nil)
 			case "disable":
@@ -155,24 +206,61 @@ func verifBodyC14(s *verifEngC, gc *check.C) {
 				ts, err = snapstate.Enable(st, n)
 			case "switch":
 				ts, err = snapstate.Switch(st, n, &snapstate.RevisionOptions{Channel: "some-channel"})
+			case "install":
+				ts, err = snapstate.Install(context.Background(), st, n, nil, s.user.ID, snapstate.Flags{})
+			case "alias":
+				ts, err = snapstate.Alias(st, n, "cmd1", "alias1")
+			case "unalias":
+				ts, err = snapstate.DisableAllAliases(st, n)
+			case "prefer":
+				ts, err = snapstate.Prefer(st, n)
+			case "refresh-many":
+				for _, x := range r.snaps {
+					s.fakeStore.refreshRevnos[ids[x]] = snap.R(revs[x])
+				}
+				var updated []string
+				updated, tss, err = snapstate.UpdateMany(context.Background(), st, r.snaps, nil, s.user.ID, nil)
+				if err == nil {
+					r.affected = updated
+				}
+			case "remove-many":
+				var removed []string
+				removed, tss, err = snapstate.RemoveMany(st, r.snaps, nil)
+				if err == nil {
+					r.affected = removed
+				}
 			}
 			r.err = err
-			r.endJSON = verifSnapStateJSON(st, n)
-			if err == nil {
-				chg := st.NewChange(r.kind, fmt.Sprintf("%s %s", r.kind, n))
-				chg.AddAll(ts)
-				r.chg = chg
-				r.chgID = chg.ID()
+			r.endJSON = verifSnapStatesJSON(st, r.snaps)
+			r.endRec = map[string]string{}
+			for _, x := range r.snaps {
+				r.endRec[x] = verifSnapStateJSON(st, x)
 			}
-			r.tasks1, r.chgs1 = st.TaskCount(), len(st.Changes())
+			ntasks := 0
+			if err == nil {
+				if ts != nil {
+					tss = append(tss, ts)
+				}
+				if len(tss) > 0 {
+					chg := st.NewChange(r.kind, fmt.Sprintf("%s %v", r.kind, r.snaps))
+					for _, x := range tss {
+						chg.AddAll(x)
+						ntasks += len(x.Tasks())
+					}
+					r.chg = chg
+					r.chgID = chg.ID()
+				}
+			}
+			r.tasks1, r.chgs1, r.linked1 = st.TaskCount(), len(st.Changes()), len(st.Tasks())
 			if r.chg != nil {
 				r.chgs1-- // its own change
-				r.tasks1 -= len(ts.Tasks())
+				r.tasks1 -= ntasks
+				r.linked1 -= ntasks
 			}
 			r.exclusive = exclusive != nil && !exclusive.IsReady()
 			for _, o := range reqs {
-				if o != r && o.chg != nil && o.snapName == n && !o.chg.IsReady() {
-					r.others = append(r.others, fmt.Sprintf("#%d(%s, change %s)", o.id, o.kind, o.chgID))
+				if o != r && o.chg != nil && verifIntersects(o.affected, r.affected) && !o.chg.IsReady() {
+					r.others = append(r.others, fmt.Sprintf("#%d(%s %v, change %s)", o.id, o.kind, o.affected, o.chgID))
 				}
 			}
 		}()
@@ -183,8 +271,14 @@ func verifBodyC14(s *verifEngC, gc *check.C) {
 		c.Count("requests-judged")
 		_, isConflict := r.err.(*snapstate.ChangeConflictError)
 		switch {
+		case r.err == nil && r.chg == nil:
+			c.Count("probe:request-had-nothing-to-do")
+			if r.tasks1 != r.tasks0 || r.chgs1 != r.chgs0 {
+				c.Violate("C14/refused-request-created-something", "request #%d (%s %v) had nothing to do but left %d new tasks and %d new changes", r.id, r.kind, r.snaps, r.tasks1-r.tasks0, r.chgs1-r.chgs0)
+			}
 		case r.err == nil:
 			c.Count("probe:request-accepted")
+			c.Count("probe:request-accepted:" + r.kind)
 			c.Logf("request #%d accepted as change %s", r.id, r.chgID)
 			if len(r.others) > 0 {
 				c.Violate("C14/conflicting-request-accepted", "request #%d (%s %s) was accepted while unfinished change(s) %v operate on the same snap", r.id, r.kind, r.snapName, r.others)
@@ -192,18 +286,27 @@ func verifBodyC14(s *verifEngC, gc *check.C) {
 			if r.exclusive {
 				c.Violate("C14/accepted-during-exclusive-change", "request #%d (%s %s) was accepted while an exclusive change is in progress", r.id, r.kind, r.snapName)
 			}
-			if r.startJSON != r.endJSON {
-				c.Violate("C14/accepted-although-snap-record-changed", "request #%d (%s %s) was accepted although the snap's record changed while it was being prepared", r.id, r.kind, r.snapName)
+			for _, x := range r.affected {
+				if r.startRec[x] != r.endRec[x] {
+					c.Violate("C14/accepted-although-snap-record-changed", "request #%d (%s %v) was accepted, its change operates on %v, although the record of %s changed while it was being prepared", r.id, r.kind, r.snaps, r.affected, x)
+				}
 			}
 		default:
 			c.Logf("request #%d refused: conflict=%v", r.id, isConflict)
 			if isConflict {
 				c.Count("probe:request-refused-with-conflict")
+				c.Count("probe:request-refused-with-conflict:" + r.kind)
 			} else {
 				c.Count("probe:request-refused-with-own-error")
 			}
 			if r.tasks1 != r.tasks0 || r.chgs1 != r.chgs0 {
-				c.Violate("C14/refused-request-created-something", "request #%d (%s %s) was refused (%v) but left %d new tasks and %d new changes", r.id, r.kind, r.snapName, r.err, r.tasks1-r.tasks0, r.chgs1-r.chgs0)
+				cls := "C14/refused-request-created-something"
+				if (r.kind == "refresh-many" || r.kind == "remove-many") && len(r.snaps) > 1 && isConflict && r.chgs1 == r.chgs0 && r.linked1 == r.linked0 {
+					// the task sets built for the snaps of the request handled before the
+					// conflicting one stay behind, linked to no change
+					cls += ":unlinked-tasks-left-by-refused-multi-snap-" + r.kind
+				}
+				c.Violate(cls, "request #%d (%s %v) was refused (%v) but left %d new tasks (%d of them linked to a change) and %d new changes", r.id, r.kind, r.snaps, r.err, r.tasks1-r.tasks0, r.linked1-r.linked0, r.chgs1-r.chgs0)
 			}
 		}
 		if r.startJSON != r.endJSON {
@@ -241,11 +344,11 @@ func verifBodyC14(s *verifEngC, gc *check.C) {
 		s.mu.Unlock()
 		// counts for "creates nothing" restart at the last resume of each pending request
 		st.Lock()
-		tc, cc := st.TaskCount(), len(st.Changes())
+		tc, cc, lc := st.TaskCount(), len(st.Changes()), len(st.Tasks())
 		st.Unlock()
 		for _, r := range reqs {
 			if !r.finished {
-				r.tasks0, r.chgs0 = tc, cc
+				r.tasks0, r.chgs0, r.linked0 = tc, cc, lc
 			}
 		}
 		c.Logf("store call #%d (%s) returns", p.seq, p.what)
